@@ -20,7 +20,7 @@ RULE = ("call specs = (function, parameter variant, dtype, backend) over 42 publ
 BUDGET = {'quick': 170, 'thorough': 1500}
 MODES = {'quick': [('J', 8), ('I', 8)], 'thorough': [('J', 8), ('I', 8)]}
 FLOORS = {'quick': {'repeat_identical': 141, 'fresh_process_identical': 48, 'reordered_other_threads_identical': 220, 'functions_in_sequences': 1,
-                    'state_tables_unchanged': 250, 'compiled_mode_sequences': 4, 'pair_second_call_equals_fresh': 36, 'edited_argument_recomputed': 150},
+                    'state_tables_unchanged': 250, 'compiled_mode_sequences': 4, 'pair_second_call_equals_fresh': 36, 'edited_argument_recomputed': 100, 'joint_compute_equals_separate': 25},
           'thorough': {'repeat_identical': 2500, 'fresh_process_identical': 1200}}
 ASSUMPTIONS = ['bump() is excluded: it draws from the unseeded global RNG by design',
                'compiled-mode workers are the ones that can see stale JIT specialisations (Numba freezes closure/global values at compile time); '
@@ -81,8 +81,12 @@ def _catalogue():
     C['viewshed'] = (1, 3, lambda v, r, x: [xrspatial.viewshed(r[0], x=x['vx'], y=x['vy']), xrspatial.viewshed(r[0], x=x['vx'], y=x['vy'], observer_elev=5),
                                            xrspatial.viewshed(r[0], x=x['vx2'], y=x['vy'], observer_elev=1, target_elev=2)][v], False, 'elev')
     C['regions'] = (1, 2, lambda v, r, x: zonal.regions(r[0], neighborhood=[4, 8][v]), False, 'targets')
-    C['zonal.stats'] = (2, 4, lambda v, r, x: [zonal.stats(r[0], r[1]), zonal.stats(r[0], r[1], stats_funcs=['sum', 'count']), zonal.stats(r[0], r[1], zone_ids=[2, 1], nodata_values=3),
-                                              zonal.stats(r[0], r[1], stats_funcs=['var', 'min'], zone_ids=[0, 3])][v], True, 'zones')
+    def _zstats(v, r, x):
+        if v == 4:      # user reducers, one of them named like a built-in statistic (NumPy backend only)
+            return zonal.stats(r[0], r[1], stats_funcs={'std': lambda z: float(np.std(z, ddof=1)) if len(z) > 1 else 0.0, 'mean': lambda z: float(np.median(z))})
+        return [zonal.stats(r[0], r[1]), zonal.stats(r[0], r[1], stats_funcs=['sum', 'count']), zonal.stats(r[0], r[1], zone_ids=[2, 1], nodata_values=3),
+                zonal.stats(r[0], r[1], stats_funcs=['var', 'min'], zone_ids=[0, 3])][v]
+    C['zonal.stats'] = (2, 5, _zstats, True, 'zones')
     C['zonal.crosstab'] = (2, 3, lambda v, r, x: [zonal.crosstab(r[0], r[1]), zonal.crosstab(r[0], r[1], agg='percentage', cat_ids=[1, 3]), zonal.crosstab(r[0], r[1], zone_ids=[3, 1], nodata_values=2)][v], True, 'zones')
     C['zonal.trim'] = (1, 2, lambda v, r, x: zonal.trim(r[0], values=[(0,), (0, 1)][v]), False, 'targets')
     C['zonal.crop'] = (2, 2, lambda v, r, x: zonal.crop(r[0], r[1], zones_ids=[(1,), (2, 3)][v]), False, 'zones')
@@ -121,6 +125,8 @@ def all_specs():
         for v in range(nv):
             for dt in DTYPES:
                 for dk in ([0, 1] if dask_ok else [0]):
+                    if nm == 'zonal.stats' and v == 4 and dk:
+                        continue
                     out.append('%s|%d|%s|%d' % (nm, v, dt, dk))
     return out
 
@@ -233,7 +239,7 @@ def state_snapshot():
     from xrspatial import zonal, local, convolution, focal, classify, multispectral
     P = sys.modules['xrspatial.proximity']
     snap = {
-        'zonal._DEFAULT_STATS': sorted(zonal._DEFAULT_STATS), 'zonal._DASK_STATS': sorted(zonal._DASK_STATS), 'zonal._DASK_BLOCK_STATS': sorted(zonal._DASK_BLOCK_STATS),
+        'zonal._DEFAULT_STATS': sorted((k, id(v)) for k, v in zonal._DEFAULT_STATS.items()), 'zonal._DASK_STATS': sorted(zonal._DASK_STATS), 'zonal._DASK_BLOCK_STATS': sorted(zonal._DASK_BLOCK_STATS),
         'local.funcs': sorted(local.funcs), 'convolution.UNITS': sorted(convolution.UNITS.items()), 'proximity.DISTANCE_METRICS': sorted(P.DISTANCE_METRICS.items()),
     }
     mods = [zonal, local, convolution, focal, classify, multispectral, P, sys.modules['xrspatial.pathfinding'], sys.modules['xrspatial.viewshed'],
@@ -254,6 +260,8 @@ def plan(tier, seed):
     out += [('pairs', i) for i in range(m)]
     # call, edit the argument rasters in place, call again: the second result must be that of the edited rasters
     out += [('edit', i) for i in range(32 if tier == 'quick' else 400)]
+    # two lazy Dask results computed in ONE graph must equal the results computed separately (task keys must not collide)
+    out += [('joint', i) for i in range(16 if tier == 'quick' else 200)]
     return out
 
 
@@ -353,7 +361,43 @@ def check_edit(rec, idx, rng, tier):
             rec.nontriv('edit', s)
 
 
+def check_joint(rec, idx, rng, tier):
+    import dask
+    import dask.array as da
+    import warnings
+    warnings.simplefilter('ignore')
+    specs = [s for s in all_specs() if s.endswith('|1') and not s.startswith(('big.', 'zonal.'))]
+    J = rec.mode == 'J'
+    n = (4 if tier == 'quick' else 12) if J else (12 if tier == 'quick' else 30)
+    heavy = ('proximity', 'allocation', 'direction')
+    for q in range(n):
+        nm = str(rng.choice(sorted({s.split('|')[0] for s in specs})))
+        if J and nm in heavy and rng.random() < 0.8:
+            continue
+        cands = [s for s in specs if s.startswith(nm + '|')]
+        A, B = (str(x) for x in rng.choice(cands, size=2, replace=len(cands) < 2))
+        rec.evaluation()
+        try:
+            ra = build(A, rec.seed)[0](); rb = build(B, rec.seed + 1)[0]()      # same function, other parameters / other data
+            if not (isinstance(ra, xr.DataArray) and isinstance(rb, xr.DataArray) and isinstance(ra.data, da.Array) and isinstance(rb.data, da.Array)):
+                continue
+            with dask.config.set(scheduler='threads', num_workers=4):
+                ja, jb = dask.compute(ra.data, rb.data)
+                sa = ra.data.compute(); sb = rb.data.compute()
+        except Exception:
+            rec.rej('raises.' + nm); continue
+        from vlib import tol as _t
+        da_ = _t.first_diff_exact(np.asarray(ja), np.asarray(sa)); db_ = _t.first_diff_exact(np.asarray(jb), np.asarray(sb))
+        if da_ is not None or db_ is not None:
+            rec.violation('history.joint_compute_differs', 'two %s results computed in one graph differ from the same results computed separately (%s / %s): %r %r'
+                          % (nm, A, B, da_, db_), dict(first=A, second=B, mode=rec.mode))
+            continue
+        rec.ok('joint_compute_equals_separate'); rec.add('joint_functions', nm); rec.nontriv('joint', A, B)
+
+
 def check(rec, kind, idx, rng, tier):
+    if kind == 'joint':
+        return check_joint(rec, idx, rng, tier)
     if kind == 'pairs':
         return check_pairs(rec, idx, rng, tier)
     if kind == 'edit':
